@@ -1,10 +1,13 @@
 """All translators: (generated file name, function(repo) -> (coq text, info))."""
 import backoff
 import topicname
+import layouts
 
 GENERATORS = [
     ('Backoff.v', backoff.generate),
     ('TopicRegex.v', topicname.generate),
+    ('Layouts.v', layouts.generate_defs),
+    ('LayoutsOk.v', layouts.generate_ok),
 ]
 
 if __name__ == '__main__':
